@@ -200,29 +200,60 @@ def run(repo: Repo, rep: Report, tier: str) -> None:
     for lp in loops:
         writes = [c for c in calls_in(lp) if isinstance(c.func, ast.Attribute) and c.func.attr in ("write_file", "write", "write_text")]
         rep.require(bool(writes), "R12.3: no write call in the RUNTIME_FILES loop")
+        from sa.match import Locals as _Locals
+
+        EL = _Locals(emit.node)
+        tnames = [e.id for e in lp.target.elts if isinstance(e, ast.Name)] if isinstance(lp.target, ast.Tuple) else []
+        if len(tnames) < 2:
+            raise AnalysisError("R12.3: the RUNTIME_FILES loop does not unpack (module, filename, destination)")
+        t_mod, t_file = tnames[0], tnames[1]
+
+        def is_resource(e: ast.AST) -> bool:
+            """importlib.resources.files(<module>) joined with <filename> (joinpath or `/`)"""
+            has_files = any(isinstance(x, ast.Call) and (dotted(x.func) or "").split(".")[-1] == "files" and x.args and isinstance(x.args[0], ast.Name) and x.args[0].id == t_mod
+                            for x in ast.walk(e))
+            has_name = any((isinstance(x, ast.Call) and isinstance(x.func, ast.Attribute) and x.func.attr == "joinpath" and x.args and isinstance(x.args[0], ast.Name) and x.args[0].id == t_file)
+                           or (isinstance(x, ast.BinOp) and isinstance(x.op, ast.Div) and isinstance(x.right, ast.Name) and x.right.id == t_file) for x in ast.walk(e))
+            return has_files and has_name
+
+        # file handles opened on the resource (with ... open(...) as f)
+        handles = {}
+        for wnode in [n for n in own_nodes(lp) if isinstance(n, ast.With)]:
+            for it in wnode.items:
+                ce = it.context_expr
+                if isinstance(it.optional_vars, ast.Name) and isinstance(ce, ast.Call) and isinstance(ce.func, ast.Attribute) and ce.func.attr == "open" and is_resource(EL.inline(ce.func.value)):
+                    mode = const_str(ce.args[0]) if ce.args else next((const_str(k.value) for k in ce.keywords if k.arg == "mode"), "r")
+                    handles[it.optional_vars.id] = mode
+
+        def verbatim(v: ast.AST) -> Optional[str]:
+            """why the value is the unmodified text of the resource, or None"""
+            if isinstance(v, ast.Call) and isinstance(v.func, ast.Attribute) and v.func.attr == "read" and not v.args and isinstance(v.func.value, ast.Name) \
+                    and handles.get(v.func.value.id) in ("r", "rt"):
+                return f"`{norm(v)}` on the resource opened in text mode"
+            if isinstance(v, ast.Call) and isinstance(v.func, ast.Attribute) and v.func.attr == "read_text" and not v.args and is_resource(EL.inline(v.func.value)):
+                return f"`read_text()` of the resource"
+            return None
+
         for w in writes:
             content = w.args[1] if len(w.args) > 1 else (w.args[0] if w.args else None)
-            sub = f"{emit.module.relpath}:CoreEmitter.emit `{norm(w)[:60]}`"
+            sub = f"{emit.module.relpath}:CoreEmitter.emit runtime file content written"
             okv = False
-            why = "content argument is not a plain variable"
+            why = "content argument is not a plain variable or a direct read"
             if isinstance(content, ast.Name):
                 defs = [n for n in own_nodes(lp) if isinstance(n, ast.Assign) and any(isinstance(t, ast.Name) and t.id == content.id for t in n.targets)]
                 augs = [n for n in own_nodes(lp) if isinstance(n, ast.AugAssign) and isinstance(n.target, ast.Name) and n.target.id == content.id]
-                reads = [d for d in defs if isinstance(d.value, ast.Call) and isinstance(d.value.func, ast.Attribute)
-                         and d.value.func.attr == "read" and not d.value.args]
+                reads = [d for d in defs if verbatim(d.value) is not None]
                 if len(defs) == 1 and len(reads) == 1 and not augs:
                     okv = True
-                    why = f"`{content.id}` has exactly one definition in the loop, `{norm(defs[0])}`, and no other write"
+                    why = f"`{content.id}` has exactly one definition in the loop ({verbatim(defs[0].value)}) and no other write"
                 else:
                     why = f"`{content.id}` is defined {len(defs)}x / augmented {len(augs)}x in the loop: " + "; ".join(norm(d) for d in defs + augs)
-            # the opened resource must be the listed (module, filename)
-            opens = [c for c in calls_in(lp) if isinstance(c.func, ast.Attribute) and c.func.attr == "open"]
-            src_ok = any("files(module)" in norm(o) and "joinpath(filename)" in norm(o) for o in opens)
-            mode_ok = all((len(o.args) == 0) or const_str(o.args[0]) in ("r", "rt") for o in opens)
-            if okv and src_ok and mode_ok:
-                rep.ok("R12.3", sub, why + "; source is importlib.resources.files(module)/filename opened in text mode", emit.loc(w))
+            elif content is not None and verbatim(content) is not None:
+                okv, why = True, str(verbatim(content))
+            if okv:
+                rep.ok("R12.3", sub, why + "; source is importlib.resources.files(<module>)/<filename>", emit.loc(w))
             else:
-                rep.violation("R12.3", sub, f"{emit.fq}|verbatim|{norm(content) if content is not None else ''}",
+                rep.violation("R12.3", sub, f"{emit.fq}|verbatim",
                               "runtime file content is transformed (or taken from elsewhere) between read and write: " + why, emit.loc(w))
 
     # every iteration of the copy loop writes (no "skip if it already exists": stale runtime files would survive)
